@@ -235,15 +235,27 @@ type c07Scenario struct {
 	nilCtx bool
 }
 
-// c07CloseMark records the moment Close has returned.
+// c07CloseMark records the moment a Close of a started scanner has returned. A Close before
+// the first Header/Scan finds no goroutines; a later Scan starts (and by itself ends) the
+// pipeline, and what that pipeline calls is not a goroutine that outlived Close. The mark is
+// therefore set only by a Close that had a pipeline to wait for.
 type c07CloseMark struct {
 	c07Scanner
+	started  atomic.Bool
 	returned *atomic.Bool
 }
 
+func (m *c07CloseMark) Scan() bool {
+	m.started.Store(true)
+	return m.c07Scanner.Scan()
+}
+
 func (m *c07CloseMark) Close() error {
+	was := m.started.Load()
 	err := m.c07Scanner.Close()
-	m.returned.Store(true)
+	if was {
+		m.returned.Store(true)
+	}
 	return err
 }
 
@@ -432,6 +444,7 @@ func c07Run(res *fw.Result, in c07Input, sc c07Scenario, key string) {
 	var s c07Scanner
 	var ps *osmpbf.Scanner
 	var closeReturned atomic.Bool
+	var closeMark *c07CloseMark
 	var filterCalls, filterAfterClose atomic.Int64
 	if sc.target == "pbf" {
 		ps = osmpbf.New(ctx, rd, sc.procs)
@@ -451,11 +464,13 @@ func c07Run(res *fw.Result, in c07Input, sc c07Scenario, key string) {
 			ps.FilterWay = func(*osm.Way) bool { return onFilter() }
 			ps.FilterRelation = func(*osm.Relation) bool { return onFilter() }
 		}
-		s = &c07CloseMark{c07Scanner: ps, returned: &closeReturned}
+		closeMark = &c07CloseMark{c07Scanner: ps, returned: &closeReturned}
+		s = closeMark
 	} else {
 		s = osmxml.New(ctx, rd)
 	}
 	if sc.header && ps != nil {
+		closeMark.started.Store(true)
 		hist.do(0, mk("header"), func() c07Out { ps.Header(); return c07Out{} })
 	}
 	scan := func() c07Out {
